@@ -27,20 +27,33 @@ def client_part(res):
     for (as_s, as_n, va_s, va_n, bound, drift, st) in recs:
         as_of, void = as_s * NS + as_n, va_s * NS + va_n
         for mono in (as_of, as_of + 1, as_of + 5 * NS - 1, as_of + 5 * NS, as_of + 5 * NS + 1, as_of + 100 * NS, void - 1, void, void + 1, void + 10 ** 5 * NS):
-            lines.append(_client.mk(as_of, void, bound, drift, st, rng.randrange(10 ** 9, 2 * 10 ** 9) * NS, mono))
+            real = rng.randrange(10 ** 9, 2 * 10 ** 9) * NS
+            if rng.random() < 0.5 and mono > 3 * NS:
+                # the same client has just been answering, within the last seconds, from the trusted record of
+                # the daemon instance before the restart: what it remembers of that must not colour this answer
+                prev_as_of = mono - rng.choice([2, 3]) * NS
+                lines.append(_client.mk(prev_as_of, prev_as_of + 1000 * NS, rng.randrange(10 ** 6), drift, 1, real - NS, mono - rng.choice([1, NS])))
+                meta.append(None)
+            lines.append(_client.mk(as_of, void, bound, drift, st, real, mono))
             meta.append((as_s, as_n, va_s, va_n, bound, drift, st))
     impl = c.run_lines(binary, lines)
     model = c.run_model(lines)
     res.evaluations += len(lines)
     res.count("gen:records of a never-synchronised daemon read through now()", len(lines))
     bad, diffs = [], []
+    prev_line = None
     for ln, rec, i, m in zip(lines, meta, impl, model):
+        if rec is None:
+            prev_line = ln
+            res.count("gen:trusted answer just before the restarted daemon's record")
+            continue
         res.nontriv(ln)
-        r = _client.parse_result(i)
+        # what the client library handed out (the harness prints it next to the shm crate's own now() when they differ)
+        r = _client.parse_result(i.split("client=[", 1)[1].split("]")[0] if "client=[" in i else i)
         if _client.parse_result(m).get("status") != r.get("status") or _client.parse_result(m)["kind"] != r["kind"]:
             diffs.append({"case": ln, "impl": i, "model": m})
         if r["kind"] == "ok" and r["status"] != 0:
-            bad.append({"case": ln, "published_record": rec, "impl": i, "model": m,
+            bad.append({"case": ln, "calls_before": [prev_line] if prev_line else [], "published_record": rec, "impl": i, "model": m,
                         "why": ["a record published before any synchronised report (status Unknown) is handed to the application with status %d "
                                 "(1 Synchronized, 2 FreeRunning) at monotonic reading %s" % (r["status"], ln.split()[-2:])]})
     res.oblige("correspondence:now() on the records of a never-synchronised daemon vs Client.compute_bound_at (status)", not diffs)
